@@ -211,4 +211,70 @@ theorem shortest_unique (N : ℕ) (hN : 0 < N) (hN2 : N < 2 ^ 64) (C j : ℕ) (h
     simp only at hcoeff h2
     rw [hcoeff, h1, h2]
 
+/-- a decimal `a·10^x` (at most 15 digits, no trailing zero) that rounds to the float of the amount `N = C·10^j`
+    (same shape) is that amount -/
+theorem same_round_eq (N : ℕ) (hN : 0 < N) (hN2 : N < 2 ^ 64) (C j : ℕ) (hNC : N = C * 10 ^ j)
+    (hC15 : C < 10 ^ 15) (hC10 : C % 10 ≠ 0) (a : ℕ) (x : ℤ) (hapos : 0 < a) (ha15 : a < 10 ^ 15) (ha10 : a % 10 ≠ 0)
+    (hmag : magOf (fracOf a x).1 (fracOf a x).2 = magOf N (10 ^ 10)) : a = C ∧ x = (j:ℤ) - 10 := by
+  obtain ⟨hMlo, hMhi⟩ := mag_c_bounds N hN hN2
+  have hq0 := amount_val N C j hNC
+  have hclose := round_close _ _ N (10 ^ 10) (fracOf_fst_pos a x hapos) (fracOf_snd_pos a x) hN (by norm_num)
+    hmag (hmag ▸ hMlo) (hmag ▸ hMhi)
+  rw [fracOf_val, hq0] at hclose
+  rcases le_total x ((j:ℤ) - 10) with hle | hle
+  · exact grid_le a C _ _ hle ha15 ha10 hclose
+  · rw [abs_sub_comm, add_comm] at hclose
+    obtain ⟨h1, h2⟩ := grid_le C a _ _ hle hC15 hC10 hclose
+    exact ⟨h1.symm, h2.symm⟩
+
+/-- the amount written without trailing zeros IS a shortest round-trip decimal of its float: no decimal with
+    fewer digits rounds to the same float -/
+theorem shortest_exists (N : ℕ) (hN : 0 < N) (hN2 : N < 2 ^ 64) (C j : ℕ) (hNC : N = C * 10 ^ j)
+    (hC15 : C < 10 ^ 15) (hC10 : C % 10 ≠ 0) :
+    Dec.float64 ⟨(C:ℤ), (j:ℤ) - 10⟩ = roundNE false N (10 ^ 10) ∧
+    ∀ d' : Dec, Dec.float64 d' = roundNE false N (10 ^ 10) → ∀ k : ℕ, d'.coeff.natAbs < 10 ^ k → C < 10 ^ k := by
+  have hCpos : 0 < C := by
+    rcases Nat.eq_zero_or_pos C with h | h
+    · rw [h] at hNC; simp at hNC; omega
+    · exact h
+  obtain ⟨hMlo, hMhi⟩ := mag_c_bounds N hN hN2
+  have hq0 := amount_val N C j hNC
+  constructor
+  · rw [float64_eq]
+    simp only [Int.natAbs_natCast]
+    have : decide ((C:ℤ) < 0) = false := by simp
+    rw [this]
+    apply roundNE_false_eq
+    apply magOf_congr _ _ _ _ (fracOf_fst_pos C _ hCpos) (fracOf_snd_pos C _) hN (by norm_num)
+    rw [fracOf_val, hq0]
+  · intro d' hrt k hk
+    by_cases hk15 : 15 ≤ k
+    · exact lt_of_lt_of_le hC15 (Nat.pow_le_pow_right (by norm_num) hk15)
+    · rw [float64_eq] at hrt
+      obtain ⟨_, hmag⟩ := roundNE_inj _ _ _ _ _ _ hrt
+      have hane : d'.coeff.natAbs ≠ 0 := by
+        intro h0
+        rw [h0] at hmag
+        have : magOf (fracOf 0 d'.exp).1 (fracOf 0 d'.exp).2 = 0 := by
+          rw [fracOf_fst_zero]; simp [magOf]
+        omega
+      set b := d'.coeff.natAbs with hb
+      obtain ⟨a, i, hbi, ha10⟩ := strip_zeros b (by omega)
+      have hapos : 0 < a := by
+        rcases Nat.eq_zero_or_pos a with h | h
+        · rw [h] at hbi; simp at hbi; omega
+        · exact h
+      have hab : a ≤ b := by rw [hbi]; exact Nat.le_mul_of_pos_right _ (by positivity)
+      have hk' : (10:ℕ) ^ k ≤ 10 ^ 15 := Nat.pow_le_pow_right (by norm_num) (by omega)
+      -- a·10^(exp+i) is the same value, hence the same rounding
+      have hval : ((fracOf a (d'.exp + i)).1 : ℚ) / (fracOf a (d'.exp + i)).2 =
+          ((fracOf b d'.exp).1 : ℚ) / (fracOf b d'.exp).2 := by
+        rw [fracOf_val, fracOf_val, hbi, zpow_add₀ (by norm_num : (10:ℚ) ≠ 0), zpow_natCast]
+        push_cast; ring
+      have hmag' := magOf_congr _ _ _ _ (fracOf_fst_pos a _ hapos) (fracOf_snd_pos a _)
+        (fracOf_fst_pos b d'.exp (by omega)) (fracOf_snd_pos b _) hval
+      obtain ⟨h1, _⟩ := same_round_eq N hN hN2 C j hNC hC15 hC10 a (d'.exp + i) hapos (by omega) ha10
+        (hmag'.trans hmag)
+      omega
+
 end Verif.Lemmas.Zcn
